@@ -117,7 +117,8 @@ pub struct Case {
     pub items: Vec<Item>,
 }
 
-const KEYS: &[&str] = &["a", "b", "c", "a::b", "::a::b", "r#type", "dd", "::c", "a::c"];
+// (keys led by a path keyword are named items too)
+const KEYS: &[&str] = &["a", "b", "crate::a", "c", "a::b", "::a::b", "self::b", "r#type", "dd", "::c", "a::c", "super::c", "Self", "crate"];
 
 fn gen_value(d: &mut D, val: &str, good: bool) -> String {
     let s: &[&str] = match (val, good) {
@@ -141,12 +142,13 @@ pub fn gen_case(d: &mut D) -> Case {
     let n = d.range(0, 12);
     // a key pool of limited size so that repetitions are common
     let pool_n = d.range(1, KEYS.len());
+    let pool_off = d.below(KEYS.len());
     let mut items = vec![];
     for _ in 0..n {
         if d.ratio(1, 10) {
             items.push(Item::Lit(d.pick(&["\"l\"", "5", "true", "'c'", "1.5"]).to_string()));
         } else {
-            let key = KEYS[d.below(pool_n)].to_string();
+            let key = KEYS[(pool_off + d.below(pool_n)) % KEYS.len()].to_string();
             let good = !d.ratio(1, 5);
             let rest = gen_value(d, &val, good);
             items.push(Item::Named { key, rest, good });
@@ -268,9 +270,10 @@ pub fn check(ctx: &Ctx, c: &Case, spans_only: bool) -> Result<(), Fail> {
     };
     let nested = match darling_core::ast::NestedMeta::parse_meta_list(list.tokens.clone()) {
         Ok(n) => n,
-        Err(e) => fail!("c14:harness-render", "items of `{}` do not parse: {}", src, e),
+        // (the list is well-formed by construction: named items and literals separated by commas)
+        Err(e) => fail!("c14:valid-item-list-rejected", "the items of `{}` are all literals or named items, yet they do not parse: {}", src, e),
     };
-    ensure!(nested.len() == c.items.len(), "c14:harness-render", "item count differs in `{}`", src);
+    ensure!(nested.len() == c.items.len(), "c14:item-count", "`{}` has {} items, parsing gives {}", src, c.items.len(), nested.len());
     let whole = {
         use syn::spanned::Spanned;
         range(meta.span())
